@@ -361,5 +361,62 @@ func c17Families(tier string) []engine.Family {
 			idle, full := c17fp(u)
 			return out, idle, full, badOf(res)
 		}})
+	// unfolder with the key cache enabled (capacity 1, 2, 3): keys by reference into map targets, histories with more
+	// distinct keys than the cache holds, probes that reuse evicted and resident keys
+	kdoc := func(kv ...interface{}) []model.Event {
+		evs := []model.Event{model.ObjStart(-1, 0)}
+		for i := 0; i < len(kv); i += 2 {
+			evs = append(evs, model.KeyRef(kv[i].(string)), model.SInt(model.KInt8, int64(kv[i+1].(int))))
+		}
+		return append(evs, model.ObjEnd())
+	}
+	long := strings.Repeat("k", 70)
+	kdocs := [][]model.Event{kdoc("a", 1), kdoc("b", 2), kdoc("c", 3), kdoc("a", 4, "b", 5), kdoc("c", 6, "d", 7), kdoc("d", 8, "a", 9), kdoc(long, 1), kdoc("", 2, "a", 3),
+		{model.ObjStart(-1, 0), model.KeyRef("a"), model.ObjStart(-1, 0), model.KeyRef("b"), model.SInt(model.KInt8, 1), model.KeyRef("a"), model.SInt(model.KInt8, 2), model.ObjEnd(), model.ObjEnd()}}
+	for _, capacity := range []int{1, 2, 3} {
+		capacity := capacity
+		add(&engine.BFSModel{Name: fmt.Sprintf("gotype.Unfolder(EnableKeyCache(%d))", capacity), NumOps: len(kdocs),
+			OpName: func(op int) string { return model.EventsString(kdocs[op]) },
+			Run: func(h []int, op int) (string, string, string, string) {
+				u, err := gotype.NewUnfolder(nil)
+				if err != nil {
+					return "", "", "", err.Error()
+				}
+				u.EnableKeyCache(capacity)
+				var out string
+				apply := func(evs []model.Event) (string, error) {
+					var t interface{}
+					if evs[len(evs)-2].K == model.KObjEnd {
+						t = &map[string]map[string]int{}
+					} else {
+						t = &map[string]int{}
+					}
+					if err := u.SetTarget(t); err != nil {
+						return "", err
+					}
+					if _, err := model.Drive(structform.EnsureExtVisitor(u), evs); err != nil {
+						return "", err
+					}
+					return model.Dump(t), nil
+				}
+				res := guard(2000000, func() error {
+					for _, i := range h {
+						if _, err := apply(kdocs[i]); err != nil {
+							return fmt.Errorf("history document rejected: %v", err)
+						}
+					}
+					if op >= 0 {
+						s, err := apply(kdocs[op])
+						out = s + "|" + errStr(err)
+					}
+					return nil
+				})
+				if res.Err != nil {
+					return "", "", "", res.Err.Error()
+				}
+				idle, full := c17fp(u)
+				return out, idle, full, badOf(res)
+			}})
+	}
 	return fams
 }
